@@ -793,6 +793,20 @@ func runSession(c *corr.Ctx, in *E2EInput, name string) {
 	time.Sleep(20 * time.Millisecond)
 	window := 40
 	total := 0
+	// back channel: the client reads the direct media while it writes the back channel; without any
+	// inbound packet it declares a timeout, so the server keeps the direct media alive
+	keepSizes := map[int]bool{}
+	keepSeq := uint16(500)
+	keepAlive := func() {
+		if !back {
+			return
+		}
+		pl := []byte(fmt.Sprintf("%s/keepalive/%d", marker, keepSeq))
+		keepSizes[12+len(pl)+10] = true
+		h.stream.WritePacketRTP(desc.Medias[0], &rtp.Packet{Header: rtp.Header{Version: 2, PayloadType: 96, SequenceNumber: keepSeq, Timestamp: uint32(keepSeq) * 3000}, Payload: pl}) //nolint:errcheck
+		keepSeq++
+	}
+	keepAlive()
 	for i := 0; i < in.N; i++ {
 		for _, t := range targets {
 			pl := payloadFor(rng, t.media, t.pt, i, in.PayloadMax)
@@ -805,6 +819,9 @@ func runSession(c *corr.Ctx, in *E2EInput, name string) {
 			total++
 			if total%16 == 0 {
 				waitFor(2*time.Second, func() bool { return received() >= total-window })
+			}
+			if total%256 == 0 {
+				keepAlive()
 			}
 		}
 	}
@@ -868,7 +885,8 @@ func runSession(c *corr.Ctx, in *E2EInput, name string) {
 		c.Dist("e2e-wire-rtp-" + un.trans)
 		if un.side != sendSide {
 			// the only RTP the receiving side writes are the firewall-opening packets (empty payload)
-			if len(un.data) != 12+10 {
+			// and, with a back channel, the keep-alive packets of the direct media
+			if len(un.data) != 12+10 && !(back && un.data[1]&0x7f == 96 && keepSizes[len(un.data)]) {
 				e2eViol(c, "only protected packets leave a secure session", "sec-e2e-unexpected-rtp", in, fmt.Sprintf("%d bytes from %s", len(un.data), un.side))
 			}
 			continue
@@ -1001,6 +1019,7 @@ func genE2E(c *corr.Ctx, scenario, proto string) *E2EInput {
 	default:
 		in.StartSeq = uint16(32768 - r.IntN(in.N))
 	}
+	in.FirstSSRC = r.IntN(3) == 0
 	if r.IntN(3) != 0 {
 		in.TamperEvery = 5 + r.IntN(20)
 		in.TamperByte = r.IntN(2) == 0
